@@ -108,8 +108,9 @@ def handle : Handler := fun op inp =>
       let blocks := match calcIndptr M.indices imax sl B.loCount with
         | .ok r => blockCuts r.1 B.el
         | .error _ => []
-      return jObj [("res", jExcept jMat (transposeOnDisk M imax sl B)), ("budget", jBudget B),
-                   ("blocks", jPairs blocks)]
+      return jObj [("res", jExcept jMat (transposeOnDisk M imax sl B)),
+                   ("flat", jExcept jMat (transposeOnDiskFlat 0 M imax sl B)),
+                   ("budget", jBudget B), ("blocks", jPairs blocks)]
   | "sparse.transposeV2" => some do
       let M ← parseMat (← field inp "mat")
       let imax ← asNat (← field inp "indicesMax")
